@@ -10,6 +10,7 @@ pub mod c20;
 pub mod c21;
 pub mod c22;
 pub mod c23;
+pub mod c24;
 pub mod c25;
 pub mod c29;
 pub mod c30;
@@ -80,6 +81,7 @@ pub fn registry() -> Vec<PropInfo> {
     v.extend(hist::props());
     v.extend(c09::props());
     v.extend(c11::props());
+    v.extend(c24::props());
     v.extend(c25::props());
     v.extend(structural::props());
     v.extend(c19::props());
